@@ -74,7 +74,12 @@ func escapedFilterParamNested(param *Value, depth int) (*Value, *Error) {
 			OrigError: fmt.Errorf("filter parameter is nested deeper than %d lists", maxFilterParamNesting),
 		}
 	}
-	if param == nil || param.safe || param.IsNil() {
+	if param == nil || param.IsNil() {
+		return param, nil
+	}
+	if k := param.getResolvedValue().Kind(); param.safe && k != reflect.Slice && k != reflect.Array {
+		// (a list written in the template is marked safe as a whole; its
+		// items carry marks of their own and are looked at below)
 		return param, nil
 	}
 	if param.IsString() || rendersText(param) {
